@@ -463,6 +463,23 @@ original URL: nothing of the first normalisation leaks into the second. -/
 theorem rebuild_other_config (cfg cfg' : Cfg) (u : Bytes) (host : Option Bytes) :
     (Req.rebuild cfg' (Req.fromConfig cfg u host)).pqs = fromConfig cfg' u := rfl
 
+theorem fromConfig_original (cfg : Cfg) (u : Bytes) : (fromConfig cfg u).original = u := by
+  unfold fromConfig
+  simp only
+  split <;> rfl
+
+/-- **A request restored without its `path_and_query_v2` field** (older JSON shape: the field is `None`) **is rebuilt from
+`path_and_query_skipped.original`**: under every configuration the result is the rebuild of the request that still has
+the field — so nothing of the first normalisation (stripped marketing parameters, sorting, re-encoding, lower-casing)
+leaks into the second, the skipped parameters are those of the original URL under the new configuration, and the rebuilt
+request matches what a fresh request for the original URL matches. -/
+theorem rebuild_without_v2 (cfg cfg' : Cfg) (u : Bytes) (host : Option Bytes) (hs : List (Bytes × Bytes)) :
+    Req.rebuild cfg' { Req.fromConfig cfg u host with pathAndQuery := none, headers := hs } =
+      Req.rebuild cfg' { Req.fromConfig cfg u host with headers := hs } ∧
+    (Req.rebuild cfg' { Req.fromConfig cfg u host with pathAndQuery := none, headers := hs }).pqs = fromConfig cfg' u := by
+  unfold Req.rebuild Req.fromConfig
+  simp only [fromConfig_original, and_self]
+
 /-! ### non-vacuity -/
 
 /-- `/caf%c3%a9 x?b=a+b&a=%2B&é` under the default configuration is inside `WFurl`, and its
